@@ -41,6 +41,8 @@ pub struct TickCtx {
     pub block_ticks: Cell<u64>,
     pub iso_clock_reads: Cell<u64>,
     pub rand_reads: Cell<u64>,
+    /// eligible file operations this thread has issued inside library calls (index into the run's I/O fault plan)
+    pub io_ops: Cell<u64>,
 }
 
 thread_local! {
@@ -65,6 +67,7 @@ thread_local! {
         block_ticks: Cell::new(0),
         iso_clock_reads: Cell::new(0),
         rand_reads: Cell::new(0),
+        io_ops: Cell::new(0),
     } };
 }
 
